@@ -103,7 +103,13 @@ class LenMatch(AbstractValue):
         g = args[0] if args else 0
         lens = {0: self.I.add(self.D).add(self.N), 1: self.I, 2: self.D, 3: self.N}
         if name == 'group':
+            if len(args) > 1:
+                return tuple(TabFree(lens[a], 'group%d' % a) for a in args)
             return TabFree(lens[g], 'group%d' % g)
+        if name == 'groups':
+            return tuple(TabFree(lens[a], 'group%d' % a) for a in (1, 2, 3))
+        if name == 'span':
+            return (self.abs_method(interp, 'start', args, kwargs), self.abs_method(interp, 'end', args, kwargs))
         if name == 'end':
             return {0: lens[0], 1: self.I, 2: self.I.add(self.D), 3: lens[0]}[g]
         if name == 'start':
@@ -153,10 +159,8 @@ def rule_marker_arith(ctx, rep):
         # which case is this path? the decision on  N > 4  (normalised: N - 4 > 0)
         big = None
         for k, v in conds:
-            if k[1] == 'gt' and k[2] == repr(N.add(Aff({}, -4))):
+            if k[1] == 'ge0' and k[2] == repr(N.add(Aff({}, -5))):
                 big = v
-            elif k[1] == 'lt' and k[2] == repr(N.add(Aff({}, -5))):
-                big = not v
             else:
                 problems.append('branches on %s %s 0, which is not the test "more than 4 spaces after the marker"' % (k[2], k[1]))
         if big is None:
@@ -183,11 +187,7 @@ def run(ctx):
     fw = model.cls('block_tokenizer.FileWrapper')
     tb = model.func('block_tokenizer.tokenize_block')
     scratch = {l for l, (d, _) in c11.CLASSIFICATION.items() if d == 'D-SCRATCH'}
-    readers = []
-    for cls in blockproto.block_classes(model, ctx.configs()) + [model.cls('block_token.ListItem')]:
-        hit = cls.lookup('read')
-        if hit is not None and 'tokenize_block' in ast.unparse(hit[1].node) and cls not in readers:
-            readers.append(cls)
+    readers = blockproto.container_readers(ctx)
     if len(readers) < 2:
         rep.note('only %d reader(s) re-tokenize a buffer in read(): %s' % (len(readers), [c.short for c in readers]))
     if len(readers) < 1:
